@@ -2332,9 +2332,7 @@ func WriteBinaryBlocks(mainLabel uint64, lbls Set, op *OutputOp, bounds dvid.Bou
 				inBlock = true
 			} else {
 				hasBackground = true // true if any non-targeted label exists
-				if len(labelIndices) == len(lbls) {
-					break
-				}
+				// no early exit: after ReplaceLabel/MergeLabels a label can sit in several slots (see WriteRLEs)
 			}
 		}
 		if inBlock {
